@@ -744,6 +744,11 @@ def findIdx (q : List Nat) (d : Nat) : Option Nat :=
     | x :: xs => if x = d then some k else go (k + 1) xs
   go 0 q
 
+/-- `np.transpose(array, [0, 1, 2] + [q + 3 …])`: the input channel index of output channel index `c`
+(`input[q[k]] = c[k]`) -/
+def permChan (q : List Nat) (nd : Nat) (c : List Nat) : List Nat :=
+  (List.range nd).filterMap fun d => (findIdx q d).bind (c[·]?)
+
 /-- `permute_channel_axes_by_index` -/
 def permuteChannelsV (v : Vol) (p : List Int) : Except ErrKind VStep :=
   let nd := v.cshape.length
@@ -751,7 +756,7 @@ def permuteChannelsV (v : Vol) (p : List Int) : Except ErrKind VStep :=
   else
     let q := p.map Int.toNat
     .ok ({ v with cshape := q.filterMap (v.cshape[·]?), chans := q.filterMap (v.chans[·]?),
-                  arr := fun j c => v.arr j ((List.range nd).filterMap fun d => (findIdx q d).bind (c[·]?)) },
+                  arr := fun j c => v.arr j (permChan q nd c) },
          provOf v.geom id)
 
 /-- `with_array(array)` (channels=None): same spatial shape required; a 3-D array drops the channels,
@@ -780,6 +785,26 @@ def Op.apply (coord : Coord) (v : Vol) : Op → Except ErrKind VStep
   | .getChannel sel keep => getChannelV v sel keep
   | .permuteChannels p => permuteChannelsV v p
   | .withArray shape a isInt => withArrayV v shape a isInt
+
+def Op.isWithArray : Op → Bool
+  | .withArray _ _ _ => true
+  | _ => false
+
+/-- channel provenance of one operation on `v`: output channel index ↦ input channel index (spatial operations and
+`with_array` do not re-index the channel axes) -/
+def Op.chanSrc (v : Vol) : Op → List Nat → List Nat
+  | .spatial _ => id
+  | .getChannel sel keep => if keep then fixChan sel 0 else expandChan sel v.cshape.length
+  | .permuteChannels p => permChan (p.map Int.toNat) v.cshape.length
+  | .withArray _ _ _ => id
+
+/-- composed channel provenance of a history (final channel index ↦ original channel index) -/
+def historyChanSrc (coord : Coord) (v : Vol) : List Op → List Nat → List Nat
+  | [] => id
+  | op :: rest =>
+    match op.apply coord v with
+    | .ok (v1, _) => fun c => op.chanSrc v (historyChanSrc coord v1 rest c)
+    | .error _ => id
 
 /-- a history of accepted operations: final volume and the composed provenance -/
 def runHistory (coord : Coord) (v : Vol) : List Op → Except ErrKind VStep
